@@ -419,7 +419,13 @@ def observe_pool(arg):
                 elif k == "add":
                     pool[op["v"]] = pool[op["a"]] + pool[op["b"]]
                 elif k == "rmul":
-                    pool[op["v"]] = float(op["n"]) * pool[op["a"]]
+                    # "all non-negative real multipliers": the same number as float, int, Fraction or a numpy scalar
+                    nv = float(op["n"])
+                    import numpy
+                    from fractions import Fraction
+                    kinds = [float, Fraction, numpy.float64, numpy.float32] + ([int, numpy.int64] if nv.is_integer() else [])
+                    mult = kinds[(len(pool) + len(it["ops"]) + int(nv * 4)) % len(kinds)](nv)
+                    pool[op["v"]] = mult * pool[op["a"]]
                 elif k == "iadd":
                     x = pool[op["a"]]
                     x += pool[op["b"]]
